@@ -499,6 +499,18 @@ fn run_encoder(case: &Case, attempts: NonZeroUsize) -> Result<(), String> {
                 (Err(e), Err(kind)) if kind_of(e) == *kind => {}
                 (g, w) => return Err(format!("encode_read returned {:?} expected {:?}", g.as_ref().map_err(kind_of), w)),
             }
+            // A SECOND read on the same encoder, whatever became of the first one (end of file, an
+            // error, a short read): the reader now has data; it must be called, and what it
+            // delivers must be encoded.  (A source that was at end of file a moment ago may have
+            // grown: a log being tailed.)
+            let more: &[u8] = &[0x71, 0x72, 0x73];
+            let mut reader2 = ScriptReader::new(&[Sym::D1, Sym::DAll], more);
+            let got2 = enc.encode_read(&mut reader2, 3, NonZeroUsize::MAX);
+            let want2 = judge_trace(&reader2, 3, usize::MAX)?;
+            match (&got2, &want2.result) {
+                (Ok(n), Ok(m)) if n == m => message.extend_from_slice(&more[..*n]),
+                (g, w) => return Err(format!("a second encode_read on the same encoder (the reader delivers 1 byte, then the rest) returned {:?} expected {:?}", g.as_ref().map_err(kind_of), w)),
+            }
         }
     }
     enc.encode(suffix);
@@ -574,6 +586,17 @@ fn run_decoder(case: &Case, attempts: NonZeroUsize) -> Result<(), String> {
                 (Ok(n), Ok(m)) if n == m => fed += n,
                 (Err(e), Err(kind)) if kind_of(e) == *kind => {}
                 (g, w) => return Err(format!("decode_read returned {:?} expected {:?}", g.as_ref().map_err(kind_of), w)),
+            }
+            // A SECOND read on the same decoder, whatever became of the first one: the reader now has
+            // data; it must be called and what it delivers must be decoded.
+            if fed + 3 <= encoded.len() {
+                let mut reader2 = ScriptReader::new(&[Sym::D1, Sym::DAll], &encoded[fed..fed + 3]);
+                let got2 = dec.decode_read(&mut reader2, 3, NonZeroUsize::MAX);
+                let want2 = judge_trace(&reader2, 3, usize::MAX)?;
+                match (&got2, &want2.result) {
+                    (Ok(n), Ok(m)) if n == m => fed += n,
+                    (g, w) => return Err(format!("a second decode_read on the same decoder (the reader delivers 1 byte, then the rest) returned {:?} expected {:?}", g.as_ref().map_err(kind_of), w)),
+                }
             }
         }
     }
